@@ -63,7 +63,9 @@ TUnit == /\ Ev.e = "OffUnit"
 TRing == Ev.e = "Ring" /\ rings' = (Ev.id :> Ev.p) @@ rings /\ UNCHANGED units
 TWorld == Ev.e = "World" /\ UNCHANGED <<units, rings>>
 
+(* a history whose replay killed the child process: no call of the abstract machine explains that *)
+TCrash == Ev.e = "Crash" /\ UNCHANGED <<units, rings>> /\ Report("C12", "history_replay_did_not_return", Ev.sig)
 Init == l = 1 /\ units = <<>> /\ rings = <<>>
-Next == l <= Len(Tr) /\ l' = l + 1 /\ (THist \/ TUnit \/ TWorld \/ TRing)
+Next == l <= Len(Tr) /\ l' = l + 1 /\ (THist \/ TUnit \/ TWorld \/ TRing \/ TCrash)
 Spec == Init /\ [][Next]_vars
 =============================================================================
